@@ -214,6 +214,12 @@ func (s *parserListener) EnterValueString(ctx *parser.ValueStringContext) {
 	})
 }
 
+// EnterValueNull is called when production valueNull is entered.
+func (s *parserListener) EnterValueNull(ctx *parser.ValueNullContext) {
+	// null has no value: it is represented by an expression holding nothing, which cannot be evaluated
+	s.expressionCallbacks.Peek()(&Expression{})
+}
+
 // EnterValueFunc is called when production valueFunc is entered.
 func (s *parserListener) EnterValueFunc(ctx *parser.ValueFuncContext) {
 	s.functionCallCallback = func(functionCall *FunctionCall) {
